@@ -404,6 +404,31 @@ impl SwiftField for Field32AB {
         })
     }
 
+    fn parse_with_variant(
+        value: &str,
+        variant: Option<&str>,
+        _field_tag: Option<&str>,
+    ) -> crate::Result<Self>
+    where
+        Self: Sized,
+    {
+        // Use the variant letter to determine which type to parse
+        match variant {
+            Some("A") => {
+                let field = Field32A::parse(value)?;
+                Ok(Field32AB::A(field))
+            }
+            Some("B") => {
+                let field = Field32B::parse(value)?;
+                Ok(Field32AB::B(field))
+            }
+            _ => {
+                // No or unknown variant, fall back to default parse behavior
+                Self::parse(value)
+            }
+        }
+    }
+
     fn to_swift_string(&self) -> String {
         match self {
             Field32AB::A(field) => field.to_swift_string(),
